@@ -1,7 +1,7 @@
 (* Property C01 -- linear error propagation is exact and aligned by configuration number.
    Property theorems only (closed by [exact]); the proofs live in PV.Obs.DerivedThm. *)
 From Coq Require Import ZArith QArith List Bool String.
-From PV Require Import Base.QAux Obs.Model Obs.Derived Obs.DerivedThm.
+From PV Require Import Base.QAux Obs.Model Obs.Derived Obs.DerivedThm Obs.DerivedSpec.
 Import ListNotations.
 Open Scope Q_scope.
 
@@ -57,6 +57,43 @@ Proof.
   split; [simpl; intuition|]. split; vm_compute; reflexivity.
 Qed.
 
+(* MODEL = SPECIFICATION for the fluctuations, all inputs: every stored fluctuation of the result equals the property's formula
+   sum_j g_j * w_j(n) * (fluctuation of operand j on THAT configuration number, or 0),  w_j(n) = |union| / |own| times
+   (configurations of all replica of the ensemble) / (configurations of the replica operand j has)  -- the weight written from the
+   property text (spec_weight), not the code's bookkeeping.  names_ok: every operand's chain names are duplicate free and are
+   sample names of the result (i.e. not shadowed by a covariance input of the same name). *)
+Theorem stored_fluctuation_is_the_specified_one :
+  forall ops n i gs, Forall obs_wf ops -> names_ok ops -> (i < List.length (cfgs (new_idl ops n)))%nat ->
+  acc_nth (acc_deltas ops n gs ops None) i == spec_fluct ops n (nth i (cfgs (new_idl ops n)) 0%Z) gs ops.
+Proof. exact derived_fluctuation_is_the_specified_one. Qed.
+
+(* the missing-replica factor of the code is the replica factor of the specification *)
+Theorem code_scale_factor_is_the_specified_replica_factor :
+  forall ops o n r, find_rep o n = Some r -> NoDup (rep_names o) -> incl (rep_names o) (sample_names ops) ->
+  scalefactor ops o (ens_of n) =
+    (if Nat.ltb (List.length (filter (fun m => smem m (rep_names o)) (filter (fun m => String.eqb (ens_of m) (ens_of n)) (sample_names ops))))
+                (List.length (filter (fun m => String.eqb (ens_of m) (ens_of n)) (sample_names ops)))
+     then inject_Z (zsum (map (union_len ops) (filter (fun m => String.eqb (ens_of m) (ens_of n)) (sample_names ops))))
+          / inject_Z (zsum (map (union_len ops) (filter (fun m => smem m (rep_names o)) (filter (fun m => String.eqb (ens_of m) (ens_of n)) (sample_names ops)))))
+     else 1).
+Proof. exact scalefactor_is_spec. Qed.
+
+(* Non-vacuity: an operand on two replica and one that lacks the second replica, gapped lists: the hypotheses hold and the
+   second operand is up-weighted by (3 + 4) / 3 on the replica it has. *)
+Example model_is_spec_nonvacuous :
+  let o1 := mkObs 1 [mkRep "A|r1" (mkIdl false [1;2;4]%Z) [1;-2;1] 1; mkRep "A|r2" (mkIdl true [1;2;3;4]%Z) [1;1;-1;-1] 1] [] false in
+  let o2 := mkObs 2 [mkRep "A|r1" (mkIdl false [2;4]%Z) [3;-3] 2] [] false in
+  Forall obs_wf [o1; o2] /\ names_ok [o1; o2] /\ scalefactor [o1; o2] o2 "A" == 7 # 3.
+Proof.
+  cbv zeta. split; [|split].
+  - repeat constructor; simpl; congruence.
+  - intros o [<-|[<-|[]]]; split; try (repeat constructor; simpl; intuition congruence);
+      intros x Hx; simpl in Hx; vm_compute; intuition.
+  - vm_compute. reflexivity.
+Qed.
+
+Print Assumptions stored_fluctuation_is_the_specified_one.
+Print Assumptions code_scale_factor_is_the_specified_replica_factor.
 Print Assumptions result_configurations_are_the_union.
 Print Assumptions result_configurations_increasing.
 Print Assumptions expansion_is_aligned_by_configuration_number.
